@@ -67,6 +67,13 @@ def generate(ctx):
             nb = rng.randint(0, 6)
             nflat = rng.choice([0, 1, 3, 6, 10]) if i % 11 else rng.randint(17, 60)
             base_labels, flat_labels, lkind, bstyle, fstyle = gen_labels_pair(rng, nb, nflat)
+            if op == "setitem_new_nest" and (i // 10) % 2 == 0:
+                # the flat series carries EXACTLY the frame's index, labels repeated: still a join by label (every row of a label
+                # gets all records of that label), never a positional assignment
+                pool = [1, 2, 3] if lkind == "int" else ["a", "b", "c"]
+                base_labels = [rng.choice(pool) for _ in range(rng.randint(2, 6))]
+                flat_labels = list(base_labels)
+                nflat, bstyle, fstyle = len(flat_labels), "repeats", "identical"
             nb = len(base_labels)
             codes = fo.label_codes(base_labels + flat_labels)
             cols = {name: [gen.gen_value(rng, t) for _ in range(nflat)] for name, t in schema}
